@@ -58,6 +58,10 @@ ASSUMPTIONS = [
     "single serving thread per connection (serve_all); concurrency is C12-C14's subject",
     "the peer's messages are well-framed (C05); a payload that does not decode ends the connection with the decoder's exception",
     "chained connections (an object of ANOTHER rpyc connection held in this table) are outside the model (`notModelled` branch)",
+    "observation on the real code, not run by the correspondence (counted as `unobservable: decref with a proxy as count`): "
+    "HANDLE_DEL whose count is a REMOTE_REF makes RefCountingColl.decref compare under its non-reentrant lock; the comparison "
+    "calls back into the peer, and a nested request that resolves a LOCAL_REF then blocks the serving thread for good "
+    "(/verif/fixes/C07-del-count-must-be-int.patch); the model treats that comparison as an ordinary environment move",
     "by design, not gated by the attribute policy (listed, not claimed): HANDLE_CALL on any held object incl. its "
     "`*args`/`dict(kwargs)` unpacking (which runs `keys()`/`__getitem__`/`__iter__` of a held object passed as kwargs/args), "
     "repr, str, hash, dir, islice(iter(obj)), isinstance(_, obj) (a metaclass's __instancecheck__), `if exc`/`raise exc` "
@@ -366,7 +370,7 @@ def _signature(msg):
 
 
 def oracle_search(ctx, corr, broken):
-    deadline = time.time() + ctx.budget(60, 600)
+    deadline = time.time() + ctx.budget(40, 600)
     tried = set()
 
     def attempt(seed, index):
